@@ -22,6 +22,7 @@
  ******************************************************************************/
 
 #include <SQuIDS/SQuIDS.h>
+#include <SQuIDS/detail/VerifHooks.h>
 #include <cmath>
 #include <limits>
 #include <algorithm>
@@ -162,7 +163,10 @@ void SQuIDS::ini(unsigned int n, unsigned int nsu, unsigned int nrh, unsigned in
 void SQuIDS::set_system_pointers(double* sp, double* dp){
   //If the memory we're told to use is the same as in the last call,
   //we can skip resetting all of the pointers.
+  if(sp==last_estate_ptr)
+    SQUIDS_VERIF_EVENT(EV_REBIND_SKIPPED,0,0);
   if(sp!=last_estate_ptr){
+    SQUIDS_VERIF_EVENT(EV_REBIND,0,0);
     for(unsigned int ei = 0; ei < nx; ei++){
       for(unsigned int i=0;i<nrhos;i++)
         estate[ei].rho[i].SetBackingStore(&(sp[ei*size_state+i*size_rho]));
@@ -170,7 +174,10 @@ void SQuIDS::set_system_pointers(double* sp, double* dp){
     }
     last_estate_ptr=sp;
   }
+  if(dp==last_dstate_ptr)
+    SQUIDS_VERIF_EVENT(EV_REBIND_SKIPPED,1,0);
   if(dp!=last_dstate_ptr){
+    SQUIDS_VERIF_EVENT(EV_REBIND,1,0);
     for(unsigned int ei = 0; ei < nx; ei++){
       for(unsigned int i=0;i<nrhos;i++)
         dstate[ei].rho[i].SetBackingStore(&(dp[ei*size_state+i*size_rho]));
@@ -533,6 +540,7 @@ void SQuIDS::Evolve(double dt){
     }
     
     //after evolving, make estate alias state again
+    SQUIDS_VERIF_EVENT(EV_REALIAS,0,0);
     for(unsigned int ei = 0; ei < nx; ei++){
       for(unsigned int i=0;i<nrhos;i++)
         estate[ei].rho[i].SetBackingStore(&(system[ei*size_state+i*size_rho]));
